@@ -122,6 +122,11 @@ EFFECTS = [
     # (an entry of the `_in_packet` dictionary is an attribute named `_in_packet.<key>`)
     dict(file="FnKeepalive", src="client.py", qual="Client._handle_pingresp", name="handlePingresp", params=[], ret="Int",
          attrs=[("_in_packet.remaining_length", "Int")], clock="now", ignore=["_easy_log"], calls={}),
+    # (two observers the properties speak about: `len(self.<attr>)` of a container attribute is the Int parameter `self_<attr>_len`)
+    dict(file="FnLoopRc", src="client.py", qual="Client.is_connected", name="isConnected", params=[], ret="Bool",
+         attrs=[("_state", "Int")], clock="now", calls={}),
+    dict(file="FnLoopRc", src="client.py", qual="Client.want_write", name="wantWrite", params=[], ret="Bool",
+         attrs=[("_out_packet.len", "Int")], clock="now", calls={}),
     # (args="opaque": the arguments are objects the translated function does not look at)
     dict(file="FnLoopRc", src="client.py", qual="Client.disconnect", name="disconnect", params=[], ret="Int",
          attrs=[("_sock", "Ref")], clock="now",
@@ -742,6 +747,11 @@ class EffTr(Tr):
             if ta != "Ref" or tb != "Ref":
                 raise Missing(f"`is` between {ta} and {tb}")
             return (f"({a} == {b})" if isinstance(e.ops[0], ast.Is) else f"({a} != {b})"), "Bool"
+        if isinstance(e, ast.Call) and isinstance(e.func, ast.Name) and e.func.id == "len" and len(e.args) == 1 and self.is_self_attr(e.args[0]) \
+                and f"self.{e.args[0].attr}.len" in self.types:
+            if e.args[0].attr in self.clobbered or "*" in self.clobbered or self.epoch:
+                raise Missing(f"len(self.{e.args[0].attr}) after a call that may change it")
+            return f"self_{e.args[0].attr.lstrip('_')}_len", "Int"
         if isinstance(e, ast.BoolOp) and isinstance(e.op, ast.Or) and len(e.values) == 2:
             a, ta = self.expr(e.values[0])
             if ta == "Ref":
@@ -854,9 +864,9 @@ class EffTr(Tr):
                 out.append(self.call_eff(pad, s.value))
                 self.extra.append((pn, "Int"))
                 out.append(f"{pad}return ({pn}, effs)")
-            elif isinstance(s, ast.Return) and self.cfg.get("ret") == "Int":
+            elif isinstance(s, ast.Return) and self.cfg.get("ret") in ("Int", "Bool"):
                 val, t = self.expr(s.value)
-                if t != "Int":
+                if t != self.cfg["ret"]:
                     raise Missing(f"returns a {t}")
                 out.append(f"{pad}return ({val}, effs)")
             elif isinstance(s, ast.Assign) and len(s.targets) == 1 and isinstance(s.targets[0], ast.Name) and isinstance(s.value, ast.Call) \
@@ -977,7 +987,7 @@ class EffTr(Tr):
             + [f"({v} : Bool)" for v in cfg.get("fn_calls", {}).values()] \
             + [f"({lname(n)} : {t})" for n, t in cfg["params"]] + [f"({n} : {t})" for n, t in self.extra]
         where = f"{cfg['src']} {cfg['qual']} (line {fn.lineno})"
-        rt = "(Int × List Py.MEff)" if cfg.get("ret") else "(List Py.MEff)"
+        rt = f"({cfg['ret']} × List Py.MEff)" if cfg.get("ret") else "(List Py.MEff)"
         L = [f"/-- {where}: " + ("its result and " if cfg.get("ret") else "") + "the calls and attribute assignments it makes, in execution order"
              + ("; parameters `self_<attr>_<k>`: the attribute's value after the k-th unconditional call" if self.extra else "")
              + ("; ASSUMED: the user's callback does not assign " + ", ".join(cfg["fn_keeps"]) if cfg.get("fn_keeps") else "") + " -/",
